@@ -470,9 +470,13 @@ func (r *Runtime) typedArrayProto_copyWithin(call FunctionCall) Value {
 		data := ta.viewedArrayBuf.data
 		offset := ta.offset
 		elemSize := ta.elemSize
-		if final > from {
+		count := final - from
+		if c := toIntStrict(l) - to; c < count {
+			count = c
+		}
+		if count > 0 {
 			ta.viewedArrayBuf.ensureNotDetached(true)
-			copy(data[(offset+to)*elemSize:], data[(offset+from)*elemSize:(offset+final)*elemSize])
+			copy(data[(offset+to)*elemSize:], data[(offset+from)*elemSize:(offset+from+count)*elemSize])
 		}
 		return call.This
 	}
